@@ -40,6 +40,13 @@ impl<'tcx> Cx<'tcx> {
         let name = format!("{}", loc.file.name.prefer_local_unconditionally());
         J::s(format!("{}:{}:{}", name, loc.line, loc.col.0 + 1))
     }
+    /// end position "line:col" of the (call-site) span
+    pub fn span_end(&self, sp: Span) -> J {
+        let sm = self.tcx.sess.source_map();
+        let root = sp.source_callsite();
+        let loc = sm.lookup_char_pos(root.hi());
+        J::s(format!("{}:{}", loc.line, loc.col.0 + 1))
+    }
     pub fn expn(&self, sp: Span) -> Option<String> {
         if sp.from_expansion() {
             let mut data = sp.ctxt().outer_expn_data();
